@@ -55,6 +55,10 @@ def run(tier, seed):
                             workers=4 if not thorough else 12, timeout=1500)
         behs += b
         transitions += gen
+    # the recorded finding (compaction of a decided instance changes a later output), kept as a regression behaviour
+    fpath = os.path.join(vlib.SPEC, "attacks", "qbftinstance-finding-compaction-after-decision.json")
+    if os.path.exists(fpath):
+        behs.append(json.load(open(fpath))["behaviour"])
     cover = {}
     if thorough:
         # one test per node of the state graph of a small exhaustive config (shortest path + the node's action)
